@@ -2,6 +2,7 @@ import KinModel.Drv.Util
 import KinModel.C13Stream
 import KinModel.C13Body
 import KinModel.C13Params
+import KinModel.C13Media
 open Lean
 namespace KinModel.Drv.C13
 open KinModel.Drv KinModel.C13
@@ -101,8 +102,10 @@ def toParam (j : Json) : Param :=
     | .ok (.bool b) => b
     | _ => (loc == .query || loc == .cookie)       -- style form explodes by default, style simple does not
   { name := getStr j "name", loc := loc, ty := ty,
-    dflt := match j.getObjVal? "dflt" with | .ok .null => none | .ok d => some (toPVal d) | .error _ => none,
-    required := getBool j "required" || loc == .path, allowEmpty := getBool j "allowEmpty", explode := explode }
+    dflt := effDefault (match j.getObjVal? "dflt" with | .ok .null => none | .ok d => some (toPVal d) | .error _ => none)
+      (if getBool j "viaAllOf" then [match j.getObjVal? "allOfDflt" with | .ok .null => none | .ok d => some (toPVal d) | .error _ => none] else []),
+    required := getBool j "required" || loc == .path, allowEmpty := getBool j "allowEmpty", explode := explode,
+    content := getBool j "content" }
 
 open Params in
 def toStore (js : List Json) : Store :=
@@ -134,8 +137,10 @@ structure Setup where
   params : List Params.Param
   hasBodySpec : Bool
   required : Bool
-  ctypeOK : Bool
-  schema : Option Body.S          -- none: media type without schema
+  declared : List (String × Option Body.S)   -- requestBody.content: media type ↦ schema (none: no schema)
+  header : String                            -- the Content-Type header as sent
+  origText : String
+  useSpec : Bool := false                    -- evaluate the body with the spec's outcome (for the oracle)
   origBytes : Stream.Bytes
   origVal : Option Body.J         -- none: not JSON
 
@@ -154,19 +159,17 @@ def lookupBytes (t : List (Stream.Bytes × Option Body.J)) (b : Stream.Bytes) : 
   | [] => none
   | (b', v) :: r => if b == b' then v else lookupBytes r b
 
-/-- decoding + validation of the bytes: the value layer -/
+/-- decoding + validation of the bytes: media type selection, the value layer, the encoder -/
 def evalBody (su : Setup) (table : List (Stream.Bytes × Option Body.J)) (fresh : Stream.Bytes) (data : Stream.Bytes) :
     Stream.BodyOutcome × Option Body.J :=
-  if !su.ctypeOK then (.reject, none)
-  else match su.schema with
-  | none => (.accept, none)
-  | some s =>
-    match lookupBytes table data with
-    | none => (.reject, none)
-    | some v =>
-      match Body.visit su.ctx s v with
-      | none => (.reject, none)
-      | some v' => if su.ctx.setDefaults && !(Body.J.beq v' v) then (.rewrite fresh, some v') else (.accept, none)
+  let parse := fun d => lookupBytes table d
+  let text := fun (_ : Stream.Bytes) => Body.J.str su.origText
+  let out := if su.useSpec then Media.specOutcome su.ctx su.declared su.header parse text (fun _ => fresh) data
+             else Media.bodyOutcome su.ctx su.declared su.header parse text (fun _ => fresh) data
+  let newVal := match Media.selected su.declared su.header with
+    | some (some s) => (Media.decoded su.header parse text data).bind (fun v => Body.visit su.ctx s v)
+    | _ => none
+  (out, match out with | .rewrite _ => newVal | _ => none)
 
 def runPass (su : Setup) (n : Nat) (view : Params.Store) (r : Stream.Req) (st : Params.Store) (table : List (Stream.Bytes × Option Body.J)) : PassOut :=
   let (r1, secOK, seen) := Stream.secPhase su.hasFunc r su.reqs
@@ -203,6 +206,7 @@ partial def schemaBranches (s : Body.S) : List String :=
   match s with
   | .leaf _ _ => []
   | .obj _ _ props _ => (if props.any (fun p => p.2.attr.dflt.isSome) then ["body.default"] else []) ++
+      (if props.any (fun p => match p.2.attr.dflt with | some (.obj _) | some (.arr _) => true | _ => false) then ["body.structuredDefault"] else []) ++
       (if props.any (fun p => p.2.attr.readOnly) then ["body.readOnly"] else []) ++
       (props.map (fun p => match p.2 with | .leaf _ _ => [] | x => "body.nested" :: schemaBranches x)).flatten
   | .arr _ items => "body.array" :: schemaBranches items
@@ -229,12 +233,18 @@ def handle (j : Json) : Json :=
     | some t => (match Json.parse t with | .ok v => some (toJ v) | .error _ => none)
     | none => none
   let origBytes : Stream.Bytes := match bodyText with | some t => List.replicate t.utf8ByteSize 0 | none => []
-  let schema : Option Body.S := if isNull bs "schema" then none else some (toS (getD bs "schema" Json.null))
+  let declaredContent : List (String × Option Body.S) := match bs.getObjVal? "content" with
+    | .ok (.arr a) => a.toList.map (fun e => (getStr e "key", if isNull e "schema" then none else some (toS (getD e "schema" Json.null))))
+    | _ => [("application/json", if isNull bs "schema" then none else some (toS (getD bs "schema" Json.null)))]
+  let header := getStr j "ctype"
+  let exq := getBool o "excludeQuery"
+  let pathParams := (getArr j "pathParams").map toParam
+  let opParams := (getArr j "params").map toParam
   let su : Setup := {
     skip := skip, multi := getBool o "multi", excludeBody := getBool o "excludeBody", ctx := ctx,
-    hasFunc := getBool sec "hasFunc", reqs := reqs, params := (getArr j "params").map toParam,
+    hasFunc := getBool sec "hasFunc", reqs := reqs, params := Params.visited exq pathParams opParams,
     hasBodySpec := getBool bs "present", required := getBool bs "required",
-    ctypeOK := getStr j "ctype" == "application/json", schema := schema,
+    declared := declaredContent, header := header, origText := bodyText.getD "",
     origBytes := origBytes, origVal := origVal }
   let stm := getD j "stream" Json.null
   let clKnown := getStr stm "cl" != "unknown"
@@ -249,22 +259,31 @@ def handle (j : Json) : Json :=
   -- RequestValidationInput is used again, the query cache of the first validation)
   let p2 := runPass su 2 (if reuse then p1.view else p1.store) p1.req p1.store p1.table
   -- spec
-  let bodyActive := su.hasBodySpec && !su.excludeBody && su.ctypeOK && bodyText.isSome
-  let specBody : Json := match su.schema, origVal with
+  let selS := Media.selected su.declared header
+  let v0 : Option Body.J := Media.decoded header (fun _ => origVal) (fun _ => Body.J.str su.origText) origBytes
+  let bodyReached := su.hasBodySpec && !su.excludeBody && bodyText.isSome && !origBytes.isEmpty && !su.declared.isEmpty
+  let bodyActive := bodyReached && (match selS with | some (some _) => true | _ => false) && v0.isSome &&
+    Media.decoderOf (Media.base header) == .json
+  let selSchema : Option Body.S := match selS with | some (some s) => some s | _ => none
+  let specBody : Json := match selSchema, v0 with
     | some s, some v => (match Body.visit (Body.specCtx ctx) s v with | some v' => ofJ v' | none => Json.null)
     | _, _ => Json.null
-  let bodyExpected : String := match su.schema, origVal with
+  let bodyExpected : String := match selSchema, v0 with
     | some s, some v => (match Body.visit (Body.specCtx ctx) s v with | some _ => "value" | none => "reject")
     | _, _ => "na"
+  let noEnc := bodyReached && Media.NoBodyEncoder ctx su.declared header (fun _ => origVal) (fun _ => Body.J.str su.origText) origBytes
+  let pS := runPass { su with useSpec := true } 1 st0 r0 st0 [(origBytes, origVal)]
   let specStore := Params.specParams skip su.params st0
   -- exclusion classes
   let excl :=
-    (match su.schema, origVal with
+    (match selSchema, v0 with
      | some s, some v =>
        (if bodyActive && !skip && (Body.hasNullProp v || !Body.cleanDefaults s) then ["NullReplaced"] else []) ++
        (if bodyActive && !skip && Body.BranchShift ctx s v then ["BranchShift"] else [])
      | _, _ => []) ++
-    (if su.params.any (fun p => Params.DefaultReadsAsEmpty skip p st0) then ["DefaultReadsAsEmpty"] else [])
+    (if su.params.any (fun p => Params.DefaultReadsAsEmpty skip p st0) then ["DefaultReadsAsEmpty"] else []) ++
+    (if noEnc then ["NoBodyEncoder"] else []) ++
+    (if su.params.any (fun p => Params.ContentParamDefault skip p st0) then ["ContentParamDefault"] else [])
   let anyReq := fun (f : Stream.Scheme → Bool) => reqs.any (fun q => q.any f)
   let branches := dedup (
     (if reuse then ["opt.reuseInput"] else []) ++
@@ -281,8 +300,24 @@ def handle (j : Json) : Json :=
     (if !clKnown then ["stream.clUnknown"] else []) ++
     (if origBytes.isEmpty && bodyText.isSome then ["stream.emptyBody"] else []) ++
     (if bodyText.isSome && origVal.isNone then ["body.notJSON"] else []) ++
-    (if !su.ctypeOK then ["body.ctype"] else []) ++
-    (match su.schema with | some s => (if bodyActive then schemaBranches s else []) | none => []) ++
+    (if (header.toList.contains ';') then ["media.params"] else []) ++
+    (if bodyReached then (match Media.contentGet (su.declared.map (·.1)) header with
+       | none => ["media.unmatched"]
+       | some k => (if k.toList.contains '*' then ["media.wildcard"] else []) ++
+                   (if k != Media.base header && k != header then ["media.fallback"] else [])) else []) ++
+    (if su.hasBodySpec && su.declared.isEmpty then ["media.noContent"] else []) ++
+    (if su.declared.length > 1 then ["media.several"] else []) ++
+    (if bodyReached && (match selS with | some none => true | _ => false) then ["media.noSchema"] else []) ++
+    (if bodyReached then (match Media.decoderOf (Media.base header) with
+       | .none => ["media.noDecoder"] | .plain => ["media.plain"]
+       | .json => if Media.base header != "application/json" then ["media.jsonFamily"] else []) else []) ++
+    (if !pathParams.isEmpty then ["param.pathLevel"] else []) ++
+    (if pathParams.any (Params.overridden opParams) then ["param.overridden"] else []) ++
+    (if exq then ["opt.excludeQuery"] else []) ++
+    (if su.params.any (·.content) then ["param.content"] else []) ++
+    (if (getArr j "params" ++ getArr j "pathParams").any (fun pj => getBool pj "viaAllOf") then ["param.allOfDefault"] else []) ++
+    (if getBool sec "docLevel" then ["sec.docLevel"] else []) ++
+    (match selSchema with | some s => (if bodyActive then schemaBranches s else []) | none => []) ++
     (if Stream.readAll p1.req != origBytes then ["body.rewritten"] else []) ++
     (if !p1.ok then ["pass1.reject"] else []) ++
     (if p1.ok && !p2.ok then ["pass2.reject"] else []) ++
@@ -296,7 +331,7 @@ def handle (j : Json) : Json :=
   jobj [
     ("model", jobj [("pass1", bodyObs su p1 clKnown), ("pass2", bodyObs su p2 clKnown)]),
     ("spec", jobj [("body", specBody), ("bodyExpected", Json.str bodyExpected), ("store", ofStore specStore), ("skip", Json.bool skip),
-                   ("bodyActive", Json.bool bodyActive)]),
+                   ("bodyActive", Json.bool bodyActive), ("mustAccept", Json.bool pS.ok)]),
     ("excl", jstrs excl),
     ("branches", jstrs branches)]
 
